@@ -149,6 +149,11 @@ def cases(rng, tier):
             elif e.typ == isogen.SUMMARY:
                 exp["summary"] = b"s-new"
         out.append(("dup_after_four_%d" % i, movie_with(isogen.udta([isogen.meta([isogen.ilst(copy.deepcopy(four) + extra)])])), exp))
+    # localized values: a non-zero locale indicator (country / language) in the data box says nothing about the payload
+    for i, loc in enumerate((0x000015c7, 0x00010000, 0xffffffff, 0x00000001)):
+        items = [isogen.ilst_item(isogen.TITLE, 1, b"Titel", locale=loc), isogen.ilst_item(isogen.YEAR, 1 if i % 2 else 0, b"2015" if i % 2 else (2015).to_bytes(4, "big"), locale=loc),
+                 isogen.ilst_item(isogen.POSTER, 13, b"\xff\xd8\xff", locale=loc), isogen.ilst_item(isogen.SUMMARY, 1, b"Zusammenfassung", locale=loc)]
+        out.append(("locale_%d" % i, movie_with(isogen.udta([isogen.meta([isogen.ilst(items)])])), {"title": b"Titel", "year": 2015, "poster": b"\xff\xd8\xff", "summary": b"Zusammenfassung"}))
     # header-only unknown items (8 bytes) in front of, between and behind the known ones
     for i, pos in enumerate((0, 1, 2, 4)):
         items = [itx(isogen.TITLE, 1, b"T8"), itx(isogen.YEAR, 1, b"2012"), itx(isogen.POSTER, 13, b"\xff\xd8"), itx(isogen.SUMMARY, 1, b"S8")]
